@@ -11,6 +11,7 @@ import (
 	"context"
 	"errors"
 	"sort"
+	"strconv"
 	"strings"
 	"sync"
 	"sync/atomic"
@@ -70,6 +71,25 @@ type fakeCache struct {
 	// informer instance is stopped): the window between the tracking cache's bookkeeping and the
 	// removal itself
 	beforeRemove func(gvk gvkT)
+	// unsolicited lists informer removals that did not come from the harness (a removal the harness
+	// asks for - a CRD was deleted - travels with the solicited marker in its context) and that took
+	// live handler registrations down with them
+	unsolicited []string
+}
+
+type solicitedKey struct{}
+
+// solicited marks ctx as belonging to an informer removal the harness asked for.
+func solicited(ctx context.Context) context.Context {
+	return context.WithValue(ctx, solicitedKey{}, true)
+}
+
+func (f *fakeCache) takeUnsolicited() []string {
+	f.mu.Lock()
+	defer f.mu.Unlock()
+	out := f.unsolicited
+	f.unsolicited = nil
+	return out
 }
 
 // failNext plans informer faults for a kind.
@@ -132,7 +152,7 @@ func (f *fakeCache) List(ctx context.Context, list client.ObjectList, _ ...clien
 	return nil
 }
 
-func (f *fakeCache) RemoveInformer(_ context.Context, obj client.Object) error {
+func (f *fakeCache) RemoveInformer(ctx context.Context, obj client.Object) error {
 	gvk, err := apiutil.GVKForObject(obj, f.scheme)
 	if err != nil {
 		return err
@@ -145,6 +165,17 @@ func (f *fakeCache) RemoveInformer(_ context.Context, obj client.Object) error {
 	}
 	f.mu.Lock()
 	defer f.mu.Unlock()
+	if i := f.cur[gvk]; i != nil && ctx.Value(solicitedKey{}) == nil {
+		live := 0
+		for _, r := range f.regs {
+			if r.inf == i && !r.removed {
+				live++
+			}
+		}
+		if live > 0 {
+			f.unsolicited = append(f.unsolicited, gvk.Kind+"."+gvk.Version+"."+gvk.Group+" ("+strconv.Itoa(live)+" live handler registration(s) on it)")
+		}
+	}
 	if i := f.cur[gvk]; i != nil {
 		i.stopped = true
 		delete(f.cur, gvk)
